@@ -149,6 +149,7 @@ def run_scenario(sc):
         transports.append(d)
 
     main_calls = []
+    once_fns = {}
     last_fail = []
 
     def on_connectfailure(component, error):
@@ -199,6 +200,14 @@ def run_scenario(sc):
     comp = Component(transports=transports, realm="realm1", main=(None if sc["main"] == "none" else main_fn),
                      is_fatal=(None if fatal == "none" else is_fatal))
     world.comp = comp
+    # one-shot listeners that remove themselves the first time they run, registered *before* the recording listeners: the
+    # other listeners must still be invoked for every session
+    if sc.get("seed", 0) % 2 == 0:
+        for evn in ("connect", "join", "leave"):
+            def once(*a, evn=evn, **kw):
+                comp.off(evn, once_fns[evn])
+            once_fns[evn] = once
+            comp.on(evn, once)
     for evn in ("connect", "join", "ready", "leave", "disconnect"):
         comp.on(evn, rec(evn))
     comp.on("connectfailure", on_connectfailure)
